@@ -44,7 +44,12 @@ def render(prog):
         elif k == "for":
             lines += ["for w in " + " ".join(str(st(x)) for x in p["pat"]), "    vmk L%d $w %s" % (i, ARGS), "done"]
         elif k == "if":
-            lines += ["if vmk C%d %d" % (i, st(p["cst"])), "    vmk B%d %d %s" % (i, st(p["st"]), ARGS), "fi"]
+            body = "    vmk B%d %d %s" % (i, st(p["st"]), ARGS)
+            if p["st"] == "z" and (i + len(prog)) % 2 == 0:
+                # a succeeding body line may be a list that recovers from a failure (`fail || ok`): its status is that of the
+                # list; the extra marker Z is not part of the model's events and is filtered out before comparing
+                body = "    vmk Z%d 3 || vmk B%d 0 %s" % (i, i, ARGS)
+            lines += ["if vmk C%d %d" % (i, st(p["cst"])), body, "fi"]
     files = {}
     for s, body in SB.items():
         fl = []
@@ -99,7 +104,7 @@ def judge(rep, case, text, res, script_path):
     feat = {"kinds": kinds, "has_sete": "sete" in kinds, "has_call": "call" in kinds, "has_src": "src" in kinds,
             "has_exit": "exit" in kinds, "has_if": "if" in kinds}
     evs, status = expected(case)
-    got = [(r.get("id"), r.get("argv")) for r in res.get("log", []) if r.get("h") == "mk"]
+    got = [(r.get("id"), r.get("argv")) for r in res.get("log", []) if r.get("h") == "mk" and not str(r.get("id", "")).startswith("Z")]
     rec = {"case": case, "text": text, "status": res.get("status"), "expected_status": status, "expected": evs, "got": got,
            "stderr": res.get("stderr", "")[-300:]}
     if res.get("timed_out"):
@@ -175,7 +180,7 @@ def runner(rep, tier, seed, replay):
     sjobs = [{"entry": "script", "text": "vmk T1 0 $0 $1 \"${2}\" ${7}\nvmk T2 0 \"$1\"\n", "args": a, "timeout": 15, "files": {"f": ""}} for a in specials]
     for a, res in zip(specials, run_cases(sjobs)):
         rep.cov["evaluations"] += 1
-        got = [(r.get("id"), r.get("argv")) for r in res.get("log", []) if r.get("h") == "mk"]
+        got = [(r.get("id"), r.get("argv")) for r in res.get("log", []) if r.get("h") == "mk" and not str(r.get("id", "")).startswith("Z")]
         path = guess_path(res)
         exp_alts = [[("T1", [path, a[0], a[1]]), ("T2", [a[0]])]]
         if got not in exp_alts:
@@ -185,7 +190,7 @@ def runner(rep, tier, seed, replay):
     pres = run_cases([{"entry": "script", "text": t, "files": f, "timeout": 15} for (_, t, f, _) in PERSIST])
     for (name, t, f, exp), res in zip(PERSIST, pres):
         rep.cov["evaluations"] += 1
-        got = [(r.get("id"), r.get("argv")) for r in res.get("log", []) if r.get("h") == "mk"]
+        got = [(r.get("id"), r.get("argv")) for r in res.get("log", []) if r.get("h") == "mk" and not str(r.get("id", "")).startswith("Z")]
         ok = got == [(a, b) for a, b in exp]
         if name == "source-changes-directory" and ok:
             mk = [r for r in res.get("log", []) if r.get("h") == "mk"]
